@@ -89,6 +89,10 @@ type Config struct {
 	// skipped; the scripted transport itself is what it is); DebugLog: Info.DebugLogPackages
 	TLS      bool `json:"tls_enable,omitempty"`
 	DebugLog bool `json:"debug_log_packages,omitempty"`
+	// ReuseConf: the login uses the *LoginConfig object of the session's previous login (its
+	// members set to this login's values) instead of a fresh one - an application that keeps
+	// its configuration and logs in again
+	ReuseConf bool `json:"login_config_object_reused,omitempty"`
 }
 
 // Script is what the server answers.
@@ -152,6 +156,7 @@ type Session struct {
 	cancelBg context.CancelFunc
 	bg       context.Context
 	info     *tds.Info
+	conf     *tds.LoginConfig // of the previous login
 }
 
 // NewSession sets the connection up (host names are taken from cfg).
@@ -247,6 +252,12 @@ func (sess *Session) Login(cfg Config, s Script, ctxTimeout time.Duration) (res 
 		res.Err = err
 		return res
 	}
+	if cfg.ReuseConf && sess.conf != nil {
+		fresh := conf
+		conf = sess.conf
+		conf.DSN, conf.Hostname, conf.AppName, conf.Encrypt, conf.RemoteServers = fresh.DSN, fresh.Hostname, fresh.AppName, fresh.Encrypt, nil
+	}
+	sess.conf = conf
 	if cfg.App != "" {
 		conf.AppName = cfg.App
 	}
